@@ -1,6 +1,9 @@
 import Pcore.Proofs.FormatUnparse
 import Pcore.Proofs.FormatContainer
 import Pcore.Proofs.FormatRef
+import Pcore.Proofs.FormatCtor
+import Pcore.Proofs.FormatAlt
+import Pcore.Proofs.FormatFloat
 import Pcore.Generated.FormatLetters
 /-!
 # C20 — String formatting is total and faithful to the format directive
@@ -26,9 +29,8 @@ Full statement / proved / missing
                          are the format strings the float path derives from it with `unParse` (`WithoutWidth`,
                          `ReplaceFormatChar`): `GoOK` = every format string handed to fmt is a directive fmt understands.
 * `C20_total`          — total by construction, and no Go fault/`%!` marker is reachable: the result is `text` or
-                         `reported`; for per-type format maps of any depth `C20_total_map`.  Full statement
-                         `C20_total_full` (without fmt's number limit) is FALSE: `C20_total_fails_number_limit`
-                         (known finding C20-fmt-number-limit, `%10000010d`).
+                         `reported`, for EVERY directive `parseFormat` accepts (it rejects numbers beyond fmt's limit:
+                         fixed finding C20-fmt-number-limit); for per-type format maps of any depth `C20_total_map`.
 * `C20_reported`       — a scalar raises only the unsupported-format error, or the documented failure of `%s` on a
                          Binary that is not UTF-8.
 * `C20_unsupported_iff`— scalars: reported unsupported ⇔ letter ∉ documented set of the value's kind, the documented
@@ -42,27 +44,36 @@ Full statement / proved / missing
                          (`%#07x` of 256 is `0x0000100`; known finding C20-go-fmt-alt-zeropad).
 * `C20_radix_back`     — letters d x X o b B: `readRadix` of the rendering is the integer, for ALL integers and
                          directives (the two classes above included), except 0 with precision 0 for d x X o.
-* `C20_ctor_back_full` — the same round trip through pcore's own Integer constructor `new(Integer, text, radix)` is FALSE:
-                         `C20_ctor_back_fails` (known finding C20-integer-ctor-text: hexadecimal digits without a
-                         prefix, any radix prefix, zero-padded decimals with 8/9 are not read back); the constructor
-                         (`newInteger`: signature pattern + strconv.ParseInt) is modelled and compared (op `back`).
+* `C20_bin_ref`        — letters b B (pcore's own code): the rendering equals the same reference `cRef` for ALL integers,
+                         flags, widths and precisions, no excluded class (0 with precision 0 prints the digit 0).
+* `C20_ctor_back`      — the round trip through pcore's own Integer constructor `new(Integer, text, radix)`
+                         (`newInteger`: signature pattern + integerFromString + strconv.ParseInt, modelled and compared,
+                         op `back`): for d o b B with any flags/precision and x X with `#`, no width, every Int64.
+                         The full statement `C20_ctor_back_full` is FALSE: `C20_ctor_back_fails` (known finding
+                         C20-integer-ctor-hex: `%x` renders `ff`, which the signature rejects without `0x`).
 * `C20_width`          — scalars: at least `w` runes wide (letters whose digits come from fmt's float code excluded).
 * `C20_pad_side_text`, `C20_pad_side_pbB`, `C20_pad_side_int` — blanks on the left unless `-`; zeros only from fmt's
                          integer code (between sign/prefix and digits, by `C20_int_ref_partial`) and the b/B precision.
 * `C20_container_rec`  — for values of any depth: the model of ToString2 = the directly written recursive reference
                          renderer `refVal`, under any per-type map with non-alt container formats (hash format ≠ a).
+* `C20_container_alt`  — alt-mode (`#`) and mixed layouts too: the model of ToString2 with its Indentation objects = the
+                         directly written pretty-printer `refPP` (level / inherited-indent / nested as parameters, line
+                         breaks decided from the previous element), values of any depth; `C20_alt_line_break`.
 * `C20_container_array`, `C20_container_hash` — non-alt: left delimiter ++ intercalate (separator ++ " ") (element
                          renderings) ++ right delimiter; elements that are containers fall under the same theorems.
+* `C20_float_pad`, `C20_float_restore`, `C20_float_sign_invariant`, `C20_float_width` — the float path AROUND the digits,
+                         for every FloatIO (whatever digit strings fmt returns): padNumber's placement of blanks and
+                         zeros, the restored fraction keeps the printed text and does not depend on the sign, the width
+                         is reached by every letter (assuming only that fmt pads its own output: `IOWidth`).
 * missing: the digits of `%e %f %g %a` (fmt/strconv float formatting is a parameter `FloatIO`; only the dispatch,
   the format string handed over, floatGFormat's fraction restoration and padNumber are modelled and compared);
-  alt-mode (`#`) container layout is modelled and compared line by line but has no theorem; strings.ToUpper/ToLower
-  beyond U+00FF; NaN/±Inf (not instances of Float in pcore: no Float format entry applies to them).
+  NaN/±Inf (not instances of Float in pcore: no Float format entry applies to them).
 -/
 namespace Pcore.Format
 open Pcore.Generated
 
-/-- `d` is a syntactically valid directive with Format record `f`, its numbers within fmt's limit -/
-def Directive (d : Str) (f : Fmt) : Prop := newFormat d = .ok f ∧ NumOK f
+/-- `d` is a syntactically valid directive with Format record `f` -/
+def Directive (d : Str) (f : Fmt) : Prop := newFormat d = .ok f
 
 /-- the directive as printf reads it -/
 def printfView (f : Fmt) : Option GoSpec := goParse (goFormat f)
@@ -74,10 +85,17 @@ def io0 : FloatIO := ⟨fun _ _ => [], fun _ => 0, fun _ => 0⟩
 
 theorem C20_letters : LettersOK formatLetters := lettersOKb_sound formatLetters (by decide +kernel)
 
+/-- Go's case table, regenerated from $GOROOT/src/unicode/tables.go: every row recognised, ranges sorted and disjoint
+    (so the model's search finds what unicode.ToUpper/ToLower's binary search finds) -/
+theorem C20_case_table : CaseTableOK caseRanges := by decide +kernel
+
+example : "ǆemal ΣΑΣ".toList.map goUpper = "Ǆemal ΣΑΣ".toList.map goUpper ∧ "Ǆ".toList.map goLower = "ǆ".toList ∧
+    capitalizeSegment "ǆ ΣΑΣ".toList = "Ǆ σασ".toList ∧ "ß".toList.map goUpper = "ß".toList := by decide +kernel
+
 /-! ## the grammar -/
 
 theorem C20_directive_go (d : Str) (f : Fmt) (h : Directive d f) : GoOK f :=
-  parseFormat_goOK d none none f h.1 h.2
+  parseFormat_goOK d none none f h
 
 instance (d : Str) (f : Fmt) : Decidable (Directive d f) := by unfold Directive; infer_instance
 
@@ -122,20 +140,13 @@ theorem C20_total_map (io : FloatIO) (m : FMap) (v : Val) (h : AllGoOK m) :
 theorem C20_total (io : FloatIO) (d : Str) (f : Fmt) (v : Val) (h : Directive d f) :
     (∃ s, formatDirective io d v = .text s) ∨ (∃ c, formatDirective io d v = .reported c) := by
   unfold formatDirective
-  rw [h.1]
+  rw [h]
   exact C20_total_map io _ v (allGoOK_single f (C20_directive_go d f h) .any)
 
-/-- the full statement, without fmt's limit on the numbers of a directive -/
-def C20_total_full : Prop := ∀ (io : FloatIO) (d : Str) (f : Fmt) (v : Val), newFormat d = .ok f →
-  (∃ s, formatDirective io d v = .text s) ∨ (∃ c, formatDirective io d v = .reported c)
-
-/-- known finding C20-fmt-number-limit: `%10000010d` is a valid directive, fmt answers `%!(NOVERB)` -/
-theorem C20_total_fails_number_limit : ¬ C20_total_full := by
-  intro h
-  have hf : formatDirective io0 "%10000010d".toList (.int 5) = .fault .goFmtNoVerb := by decide +kernel
-  rcases h io0 "%10000010d".toList (parsed "%10000010d") (.int 5) (by decide +kernel) with ⟨s, hs⟩ | ⟨c, hc⟩
-  · rw [hf] at hs; cases hs
-  · rw [hf] at hc; cases hc
+/-- a width or precision beyond what fmt accepts is not a directive (fixed finding C20-fmt-number-limit: such a
+    directive used to pass the pattern and fmt answered `%!(NOVERB)`) -/
+example : newFormat "%10000010d".toList = .error .invalidSpec ∧ newFormat "%.1000001s".toList = .error .invalidSpec ∧
+    (newFormat "%1000000d".toList).toOption.isSome = true := by decide +kernel
 
 example : formatDirective io0 "%<5d".toList (.int 5) = .text "    5".toList := by decide +kernel
 example : formatDirective io0 "%d".toList (.array [.int 1]) = .reported .unsupported := by decide +kernel
@@ -242,7 +253,7 @@ theorem C20_int_ref_partial (io : FloatIO) (d : Str) (f : Fmt) (i : Int) (g : Go
   obtain ⟨g', hg', hgv, _⟩ := hgo
   unfold printfView at hg
   rw [hg] at hg'; cases hg'
-  rw [formatDirective_int io d f i h.1 (not_float_of_radix _ (radix_of_int _ hl))]
+  rw [formatDirective_int io d f i h (not_float_of_radix _ (radix_of_int _ hl))]
   unfold fmtIntCore
   rw [if_pos hl, hg]
   obtain ⟨b, u, hvb⟩ := verbBase_of_int g.verb (by rw [hgv]; exact hl)
@@ -275,6 +286,25 @@ example : formatDirective io0 "% 06d".toList (.int (-42)) = .text "-00042".toLis
     ¬ zeroClass ⟨false, true, false, false, true, some 6, none, 'd'⟩ (-42) ∧
     ¬ altZeroPad ⟨false, true, false, false, true, some 6, none, 'd'⟩ := by decide +kernel
 
+/-- **letters b B = the printf reference** (pcore's own code): for ALL integers, flag sets, widths and precisions —
+    no excluded class; the one point left out is 0 with precision 0, where the branch prints the digit 0 (as Ruby) -/
+theorem C20_bin_ref (io : FloatIO) (d : Str) (f : Fmt) (i : Int) (h : Directive d f)
+    (hb : f.letter = 'b' ∨ f.letter = 'B') (hne : ¬ (i = 0 ∧ f.prec = some 0)) :
+    formatDirective io d (.int i) = .text (cRef (pbbSpec f) i) := by
+  have hr : isRadixLetter f.letter = true := by rcases hb with h' | h' <;> rw [h'] <;> decide
+  have hi : ¬ isIntLetter f.letter = true := by rcases hb with h' | h' <;> rw [h'] <;> decide
+  have hp : isPbB f.letter = true := by rcases hb with h' | h' <;> rw [h'] <;> decide
+  have hplus : PlusOK f := (parseFormat_wf d none none f h (parseFormat_numOK d none none f h)).plus
+  rw [formatDirective_int io d f i h (not_float_of_radix _ hr)]
+  unfold fmtIntCore
+  rw [if_neg hi, if_pos hp, intPbB_eq_cRef f i hb hplus hne]
+
+example : formatDirective io0 "%+#012b".toList (.int 5) = .text "+0b000000101".toList ∧
+    formatDirective io0 "%-+8.4B|".toList (.int 5) = .reported .invalidSpec ∧
+    formatDirective io0 "% -8.4B".toList (.int 5) = .text " 0101   ".toList ∧
+    formatDirective io0 "%b".toList (.int (-9223372036854775808)) =
+      .text ('-' :: '1' :: List.replicate 63 '0') := by decide +kernel
+
 /-! ## radix renderings convert back -/
 
 theorem formatDirective_eq_fmtIntCore_text (f : Fmt) (i : Int) (g : GoSpec) (hl : isIntLetter f.letter = true)
@@ -289,7 +319,7 @@ theorem C20_radix_back (io : FloatIO) (d : Str) (f : Fmt) (i : Int) (h : Directi
     (hl : isRadixLetter f.letter = true) (hne : ¬ (i = 0 ∧ f.prec = some 0 ∧ isIntLetter f.letter = true)) :
     ∃ s, formatDirective io d (.int i) = .text s ∧ readRadix f.letter s = some i := by
   obtain ⟨g, hg, hgv, _, hgp, _⟩ := (C20_directive_go d f h).spec
-  rw [formatDirective_int io d f i h.1 (not_float_of_radix _ hl)]
+  rw [formatDirective_int io d f i h (not_float_of_radix _ hl)]
   by_cases hi : isIntLetter f.letter = true
   · obtain ⟨b, u, hvb⟩ := verbBase_of_int g.verb (by rw [hgv]; exact hi)
     refine ⟨goInteger g b u i, formatDirective_eq_fmtIntCore_text f i g hi hg b u hvb, ?_⟩
@@ -299,7 +329,8 @@ theorem C20_radix_back (io : FloatIO) (d : Str) (f : Fmt) (i : Int) (h : Directi
       simp only [isRadixLetter, isIntLetter, Bool.or_eq_true, decide_eq_true_eq] at hl hi
       tauto
     have hp : isPbB f.letter = true := by rcases hb with h' | h' <;> rw [h'] <;> decide
-    refine ⟨intPbB f i, ?_, intPbB_radix_back f i hb⟩
+    have hplus : PlusOK f := (parseFormat_wf d none none f h (parseFormat_numOK d none none f h)).plus
+    refine ⟨intPbB f i, ?_, intPbB_radix_back f i hb hplus⟩
     unfold fmtIntCore
     rw [if_neg hi, if_pos hp]
 
@@ -318,8 +349,8 @@ def C20_ctor_back_full : Prop := ∀ (io : FloatIO) (d : Str) (f : Fmt) (i : Int
   ¬ (i = 0 ∧ f.prec = some 0 ∧ isIntLetter f.letter = true) →
   ∃ s, formatDirective io d (.int i) = .text s ∧ newInteger s (letterRadix f.letter) = .int i
 
-/-- known finding C20-integer-ctor-text: `%x` of 255 renders "ff", which the constructor's signature rejects; `%#b`
-    of 5 renders "0b101", which strconv.ParseInt with radix 2 rejects; `%.3d` of 8 renders "008", rejected as well -/
+/-- known finding C20-integer-ctor-hex: `%x` of 255 renders "ff", which the constructor's signature rejects (it admits
+    hexadecimal digits only after `0x`, as Puppet's does) -/
 theorem C20_ctor_back_fails : ¬ C20_ctor_back_full := by
   intro h
   obtain ⟨s, hs, hn⟩ := h io0 "%x".toList (parsed "%x") 255 (by decide +kernel) (by decide +kernel) (by decide +kernel)
@@ -328,7 +359,67 @@ theorem C20_ctor_back_fails : ¬ C20_ctor_back_full := by
   rw [h1] at hs; cases hs
   revert hn; decide +kernel
 
-example : newInteger "0b101".toList 2 = .reported .notInteger ∧ newInteger "008".toList 10 = .reported .illegalArguments ∧
+theorem letterRadix_verbBase (c : Char) (b : Nat) (u : Bool) (h : verbBase c = some (b, u)) : letterRadix c = b := by
+  unfold verbBase at h
+  unfold letterRadix
+  by_cases hd : c = 'd'
+  · rw [if_pos hd] at h; cases h; subst hd; decide
+  · rw [if_neg hd] at h
+    by_cases hx : c = 'x'
+    · rw [if_pos hx] at h; cases h; subst hx; decide
+    · rw [if_neg hx] at h
+      by_cases hX : c = 'X'
+      · rw [if_pos hX] at h; cases h; subst hX; decide
+      · rw [if_neg hX] at h
+        by_cases ho : c = 'o'
+        · rw [if_pos ho] at h; cases h; subst ho; decide
+        · rw [if_neg ho] at h; cases h
+
+/-- **radix renderings read back through pcore's own Integer constructor**: letters d o b B with any flags and
+    precision, and x X with `#`; no width (blanks before the sign or after the digits are not part of what the
+    constructor reads); every Int64; the empty rendering of 0 with precision 0 excepted -/
+theorem C20_ctor_back (io : FloatIO) (d : Str) (f : Fmt) (i : Int) (h : Directive d f)
+    (hl : isRadixLetter f.letter = true) (hx : f.letter = 'x' ∨ f.letter = 'X' → f.alt = true) (hw : f.width = none)
+    (h1 : -(2^63 : Int) ≤ i) (h2 : i < 2^63) (hne : ¬ (i = 0 ∧ f.prec = some 0 ∧ isIntLetter f.letter = true)) :
+    ∃ s, formatDirective io d (.int i) = .text s ∧ newInteger s (letterRadix f.letter) = .int i := by
+  obtain ⟨g, hg, hgv, hgw, hgp, _, hgs, _⟩ := (C20_directive_go d f h).spec
+  rw [formatDirective_int io d f i h (not_float_of_radix _ hl)]
+  by_cases hi : isIntLetter f.letter = true
+  · obtain ⟨b, u, hvb⟩ := verbBase_of_int g.verb (by rw [hgv]; exact hi)
+    refine ⟨goInteger g b u i, formatDirective_eq_fmtIntCore_text f i g hi hg b u hvb, ?_⟩
+    rw [← hgv, letterRadix_verbBase g.verb b u hvb]
+    apply goInteger_ctor_back g i b u hvb (by rw [hgw, hw]) (by rw [hgp]; intro hh; exact hne ⟨hh.1, hh.2, hi⟩) h1 h2
+    intro h16
+    rw [hgs]; apply hx
+    unfold verbBase at hvb
+    rw [hgv] at hvb
+    by_cases hd : f.letter = 'd'
+    · rw [if_pos hd] at hvb; cases hvb; omega
+    · rw [if_neg hd] at hvb
+      by_cases hx' : f.letter = 'x'
+      · exact Or.inl hx'
+      · rw [if_neg hx'] at hvb
+        by_cases hX : f.letter = 'X'
+        · exact Or.inr hX
+        · rw [if_neg hX] at hvb
+          by_cases ho : f.letter = 'o'
+          · rw [if_pos ho] at hvb; cases hvb; omega
+          · rw [if_neg ho] at hvb; cases hvb
+  · have hb : f.letter = 'b' ∨ f.letter = 'B' := by
+      simp only [isRadixLetter, isIntLetter, Bool.or_eq_true, decide_eq_true_eq] at hl hi
+      tauto
+    have hp : isPbB f.letter = true := by rcases hb with h' | h' <;> rw [h'] <;> decide
+    have hplus : PlusOK f := (parseFormat_wf d none none f h (parseFormat_numOK d none none f h)).plus
+    have hr : letterRadix f.letter = 2 := by rcases hb with h' | h' <;> rw [h'] <;> decide
+    refine ⟨intPbB f i, ?_, by rw [hr]; exact intPbB_ctor_back f i hb hplus hw h1 h2⟩
+    unfold fmtIntCore
+    rw [if_neg hi, if_pos hp]
+
+example : formatDirective io0 "%+#.6x".toList (.int (-255)) = .text "-0x0000ff".toList ∧
+    newInteger "-0x0000ff".toList 16 = .int (-255) ∧ newInteger " 0b101".toList 2 = .int 5 := by decide +kernel
+
+example : newInteger "0b101".toList 2 = .int 5 ∧ newInteger "008".toList 10 = .int 8 ∧ newInteger "-0xff".toList 16 = .int (-255) ∧
+    newInteger "- 5".toList 10 = .int (-5) ∧ newInteger "0xff".toList 10 = .reported .notInteger ∧
     newInteger "ff".toList 16 = .reported .illegalArguments ∧ newInteger "-0377".toList 8 = .int (-255) ∧
     newInteger "101".toList 2 = .int 5 ∧ newInteger "-9223372036854775808".toList 10 = .int (-9223372036854775808) ∧
     newInteger "9223372036854775808".toList 10 = .reported .notInteger := by decide +kernel
@@ -340,7 +431,7 @@ theorem C20_width (io : FloatIO) (d : Str) (f : Fmt) (v : Val) (w : Nat) (s : St
     (hv : v.isContainer = false) (hw : f.width = some w)
     (hfl : isFloatLetter f.letter = false ∨ v.kind = .str ∨ v.kind = .bin ∨ v.kind = .dflt ∨ v.kind = .undef ∨ v.kind = .regexp)
     (hs : formatDirective io d v = .text s) : w ≤ s.length := by
-  rw [fmtVal_single io f v d h.1] at hs
+  rw [fmtVal_single io f v d h] at hs
   have hg : ∀ k, getFormat [(Key.any, FTree.mk f none)] k = .mk f none := by intro k; simp [getFormat, Key.accepts]
   exact fmtVal_width io _ Ind.default v hv w (by rw [hg]; exact hw) (by rw [hg]; exact C20_directive_go d f h)
     (by rw [hg]; exact hfl) s hs
@@ -356,12 +447,13 @@ theorem C20_pad_side_text (f : Fmt) (s : Str) (q : Bool) :
       if f.left then strCore f s q ++ spaces (f.width.getD 0 - (strCore f s q).length)
       else spaces (f.width.getD 0 - (strCore f s q).length) ++ strCore f s q := applyStringFlags_pad f s q
 
-/-- **padding side, `p b B` of integers** -/
-theorem C20_pad_side_pbB (f : Fmt) (i : Int) :
+/-- **padding side, `p b B` of integers** (the `0` flag not in effect; with it the zeros stand between sign/prefix
+    and digits: `C20_bin_ref`) -/
+theorem C20_pad_side_pbB (f : Fmt) (i : Int) (hz : pbbZeroFlag f = false) :
     intPbB f i =
       if f.left then intPbB { f with width := none } i ++ spaces (f.width.getD 0 - (intPbB { f with width := none } i).length)
       else spaces (f.width.getD 0 - (intPbB { f with width := none } i).length) ++ intPbB { f with width := none } i :=
-  intPbB_pad f i
+  intPbB_pad f i hz
 
 /-- **padding side, `d x X o`**: unless the `0` flag is in effect (no `-`, no precision) the rendering is the one
     without a width with blanks on the left, or on the right with `-`; with the `0` flag in effect the zeros stand
@@ -378,6 +470,50 @@ example : formatDirective io0 "%-05s".toList (.str "ab".toList) = .text "ab   ".
     formatDirective io0 "%05s".toList (.str "ab".toList) = .text "   ab".toList ∧
     formatDirective io0 "%-6b".toList (.int 5) = .text "101   ".toList ∧
     formatDirective io0 "%-06d".toList (.int 5) = .text "5     ".toList := by decide +kernel
+
+/-! ## the float path, around the digits (for every FloatIO: whatever digit strings fmt returns) -/
+
+/-- **padding of a float rendering** (`padNumber`; the defects fixed by 25b91c3): the text is never cut; blanks to the
+    left, or to the right with `-`; with the `0` flag and no `-`, zeros between the sign character and the digits —
+    never before the sign, never to the right -/
+theorem C20_float_pad (f : Fmt) (s : Str) :
+    padNumber f s =
+      if f.left then s ++ spaces (f.width.getD 0 - s.length)
+      else if f.zeroPad then (splitNumSign s).1 ++ zeros (f.width.getD 0 - s.length) ++ (splitNumSign s).2
+      else spaces (f.width.getD 0 - s.length) ++ s := padNumber_layout f s
+
+/-- **the restored fraction keeps what fmt printed**: `floatGFormat` only appends `.` and `0`s, and the result has a
+    decimal point -/
+theorem C20_float_restore (f : Fmt) (str : Str) :
+    ∃ suffix, gRestored f str = str ++ suffix ∧ (∀ c ∈ suffix, c = '.' ∨ c = '0') ∧ (gRestored f str).contains '.' = true :=
+  gRestored_prefix f str
+
+/-- **… independently of the sign** (the defect fixed by 457acd0): for a sign character `c` and an unsigned text, the
+    restored text of `c :: str` is `c` and the restored text of `str`, and the decision to force scientific notation is
+    the same -/
+theorem C20_float_sign_invariant (f : Fmt) (c : Char) (str : Str) (hc : isSignChar c = true)
+    (hs : ∀ x, str.head? = some x → isSignChar x = false) :
+    gRestored f (c :: str) = c :: gRestored f str ∧ gForced f (c :: str) = gForced f str :=
+  ⟨gRestored_sign f c str hc hs, gForced_sign f c str hc hs⟩
+
+/-- **width, every letter of a Float** — assuming only that fmt pads its own output to the width it is given
+    (`IOWidth`): the three ways out of `floatGFormat` (scientific text, forced scientific notation, restored fraction),
+    `%e %E %f`, the integer letters, `p` and `s` all reach the width -/
+theorem C20_float_width (io : FloatIO) (hio : IOWidth io) (d : Str) (f : Fmt) (bits w : Nat) (s : Str)
+    (h : Directive d f) (hw : f.width = some w) (hs : formatDirective io d (.float bits) = .text s) : w ≤ s.length := by
+  rw [fmtVal_single io f _ d h] at hs
+  have hg : getFormat [(Key.any, FTree.mk f none)] .float = .mk f none := by simp [getFormat, Key.accepts]
+  simp only [fmtVal, hg, FTree.f] at hs
+  exact fmtFloat_width_all io hio f (parseFormat_wf d none none f h (parseFormat_numOK d none none f h))
+    (C20_directive_go d f h) bits w s hw hs
+
+/-- non-vacuity: an io that answers like fmt for `%g` of -1.5 and `%.0g` of 255; the sign is not counted, the width is
+    reached on the scientific path, zeros follow the sign -/
+def ioDemo : FloatIO :=
+  ⟨fun fm _ => if fm = "%g".toList then "-1.5".toList else if fm = "%.0g".toList then "3e+02".toList else [], fun _ => 0, fun _ => 0⟩
+example : fmtFloat ioDemo (parsed "%010g") 0 = .text "-001.50000".toList ∧
+    fmtFloat ioDemo (parsed "%12.0g") 0 = .text "       3e+02".toList ∧
+    fmtFloat ioDemo (parsed "%-9g") 0 = .text "-1.50000 ".toList := by decide +kernel
 
 /-! ## containers -/
 
@@ -410,6 +546,28 @@ theorem C20_container_hash (io : FloatIO) (m : FMap) (ind : Ind) (es : List Entr
     same map, any other element under the container formats — recursively -/
 theorem C20_container_rec (io : FloatIO) (m : FMap) (v : Val) (h : PlainContainers m) :
     format io m v = refVal io m v := fmtVal_ref io v m Ind.default rfl h
+
+/-- **alt-mode (`#`) and non-alt containers, recursively**: for values of ANY depth under any per-type format map (any
+    mixture of alt and non-alt container formats, widths that trigger the size break; Hash format other than `a`), the
+    rendering computed by the model of `ToString2` — Indentation objects with Indenting/Increase/Subsequent/IsFirst/
+    Breaks, the first-element state of the element loop — IS the directly written pretty-printer `refPP`: nesting
+    level, "the enclosing format indents" and "not the first on its level" as plain parameters, line breaks decided
+    by looking at the previous element (`ppGlue`), hashes one entry per line -/
+theorem C20_container_alt (io : FloatIO) (m : FMap) (v : Val) (h : (getFormat m .hash).f.letter ≠ 'a') :
+    format io m v = refPP io m 0 false false v := fmtVal_pp io v m 0 false false h
+
+/-- **the line-break law** of alt mode: an indenting container nested at a level > 0, not first on its level, is a line
+    break, 2·level blanks, and then exactly its text as the first thing on the level -/
+theorem C20_alt_line_break (io : FloatIO) (m : FMap) (L : Nat) (inh : Bool) (vs : List Val) (hL : 0 < L)
+    (hind : ((getFormat m .arr).f.alt || inh) = true) :
+    refPP io m L inh true (.array vs) = (refPP io m L inh false (.array vs)).bind (fun s => .text (newLine L ++ s)) :=
+  refPP_lead io m L inh (.array vs) hL hind
+
+/-- non-vacuity: alt arrays and hashes nested four deep -/
+example : format io0 [(.arr, .mk { simpleFmt 'a' with alt := true, width := some 3 } none),
+      (.hash, .mk { simpleFmt 'h' with alt := true } none)]
+    (.array [.int 1, .int 22, .array [.int 3, .hash [.mk (.str ['k']) (.array [.int 4])]], .int 5]) =
+    .text "[1, 22,\n  [3,\n    {\n      'k' => [4]\n    }],\n  5]".toList := by decide +kernel
 
 /-- non-vacuity of `C20_container_rec`: the default formats, three levels deep -/
 example : PlainContainers [] ∧
